@@ -260,11 +260,13 @@ def main():
             gen_tier = 'thorough' if (proofs.get('ties_lost') or any('translated from the Rust source' in p for p in proofs['problems'])) else tier
             cases, meta = fam['gen'](gen_tier, rng)
             if gen_tier != tier:
-                cap = 120000
+                cap = 150000
                 if len(cases) > cap:
-                    # keep the widened search within minutes: a uniform sample of the larger family (dependent cases, e.g. `sat` after `minv`, are generated pairwise and tolerate a missing partner)
-                    keep = set(rng.sample(range(len(cases)), cap)); cases = [c for i, c in enumerate(cases) if i in keep]
-                meta = dict(meta, escalated='generated at the thorough size (at most %d cases) because a source tie of this property was lost: %s' % (cap, ', '.join(proofs.get('ties_lost', []) or ['a failing _src_ok'])))
+                    # the widened family would not fit the quick tier's budget; cases depend on their neighbours (a `sat` next to its `minsat`), so it is
+                    # not sampled: this family stays at its quick size
+                    cases, meta = fam['gen'](tier, rng)
+                else:
+                    meta = dict(meta, escalated='generated at the thorough size because a source tie of this property was lost: %s' % ', '.join(proofs.get('ties_lost', []) or ['a failing _src_ok']))
             cases = list(dict.fromkeys(F.corpus_cases(pid, fam_name) + cases))
             t1 = time.time()
             triples = run_cases(workdir, fam_name, cases)
